@@ -34,6 +34,7 @@ type caseCfg struct {
 	byz    map[int64]bool
 	maxEv  int
 	oracle string // C02 or C03
+	staged bool   // force the staged (round-structured, goal-directed) profile
 }
 
 func oracleSel() string {
@@ -75,6 +76,30 @@ func TestQBFTRandom(t *testing.T) {
 	})
 }
 
+// TestQBFTStaged runs only the staged (goal-directed, round-structured) profile, with the
+// configurations in which a Byzantine member leads one of rounds 2..4 made frequent.
+func TestQBFTStaged(t *testing.T) {
+	or := oracleSel()
+	if or == "C02" {
+		vstat.Rule("C02", ruleC02+" || staged profile: per round drawn intents (who sees a prepare quorum / a commit quorum, whose ROUND-CHANGEs arrive first), cooperating Byzantine votes, Byzantine leaders re-proposing stale prepared values with drawn justification order")
+	} else {
+		vstat.Rule("C03", ruleC03)
+	}
+	maxEv := vstat.EnvInt("VERIF_MAXEV", 300)
+	rapid.Check(t, func(rt *rapid.T) {
+		rapid.SyncTest(rt, func(rt *rapid.T) {
+			n := rapid.SampledFrom([]int{4, 4, 4, 5, 6, 7, 7}).Draw(rt, "n")
+			f := (n - 1) / 3
+			byz := map[int64]bool{}
+			for len(byz) < f {
+				byz[int64(rapid.IntRange(0, n-1).Draw(rt, "byzID"))] = true
+			}
+			cfg := caseCfg{n: n, offset: int64(rapid.IntRange(0, n-1).Draw(rt, "offset")), byz: byz, maxEv: maxEv, oracle: or, staged: true}
+			runRandom(rt, cfg, nil)
+		})
+	})
+}
+
 type outcome struct {
 	roundChanges int
 	advAccepted  int
@@ -85,6 +110,8 @@ type outcome struct {
 	viaDecided   bool
 	lateRound    bool
 	reproposed   bool
+	twoPrepared  bool // honest ROUND-CHANGEs carried two different prepared values
+	staleAttempt bool // a Byzantine leader re-proposed a prepared value although a higher prepared round was visible
 }
 
 // fixedAdversary lets the systematic sweep script the adversary part (nil = drawn).
@@ -142,8 +169,13 @@ func runRandom(rt *rapid.T, cfg caseCfg, fixed fixedAdversary) outcome {
 	// Orderly profile: walk the protocol phases round by round, with per-destination omissions,
 	// partial deliveries and adversary moves in between; this reaches multi-round states (prepared
 	// but undecided members, split decisions) that a purely chaotic schedule rarely builds.
-	orderly := rapid.IntRange(0, 2).Draw(rt, "profile") != 0
-	if orderly {
+	profile := rapid.IntRange(0, 4).Draw(rt, "profile")
+	if cfg.staged {
+		profile = 4
+	}
+	orderly := profile == 1 || profile == 2
+	staged := profile >= 3
+	{
 		pendingFor := func(typ cq.MsgType, dst int64) []int {
 			s.Lock()
 			defer s.Unlock()
@@ -182,6 +214,9 @@ func runRandom(rt *rapid.T, cfg caseCfg, fixed fixedAdversary) outcome {
 				logf("adversary %s", label)
 			}
 		}
+		if staged {
+			runStaged(rt, &stageEnv{s: s, cfg: cfg, hon: hon, byzs: byzs, adv: adv, deliverP: deliverP, logf: logf, check: checkNow, out: &out})
+		}
 		step := func(typ cq.MsgType) {
 			for _, h := range hon {
 				mode := rapid.IntRange(0, 9).Draw(rt, "phaseMode")
@@ -210,7 +245,10 @@ func runRandom(rt *rapid.T, cfg caseCfg, fixed fixedAdversary) outcome {
 				}
 			}
 		}
-		phases := rapid.IntRange(1, 5).Draw(rt, "phases")
+		phases := 0
+		if orderly {
+			phases = rapid.IntRange(1, 5).Draw(rt, "phases")
+		}
 		for ph := 0; ph < phases && !allDecided(s, hon); ph++ {
 			for _, typ := range []cq.MsgType{cq.MsgPrePrepare, cq.MsgPrepare, cq.MsgCommit} {
 				advMaybe()
@@ -230,7 +268,7 @@ func runRandom(rt *rapid.T, cfg caseCfg, fixed fixedAdversary) outcome {
 	}
 
 	maxEv := cfg.maxEv
-	if orderly {
+	if orderly || staged {
 		maxEv = cfg.maxEv / 4
 	}
 	nEv := rapid.IntRange(10, maxEv).Draw(rt, "nEvents")
@@ -417,11 +455,16 @@ func runRandom(rt *rapid.T, cfg caseCfg, fixed fixedAdversary) outcome {
 	}
 	out.ruleHash = h.Sum64()
 	out.decisions = append(out.decisions, s.Decided...)
+	pvs := map[int64]bool{}
 	for _, m := range s.Sent {
 		if m.Typ == cq.MsgPrePrepare && m.Rnd > 1 && m.Val != 101+m.Src {
 			out.reproposed = true
 		}
+		if m.Typ == cq.MsgRoundChange && m.PR > 0 {
+			pvs[m.PV] = true
+		}
 	}
+	out.twoPrepared = len(pvs) > 1
 	s.Unlock()
 	seenAdv := map[*qbftsim.M]bool{}
 	for _, d := range delivered {
@@ -453,7 +496,7 @@ func runRandom(rt *rapid.T, cfg caseCfg, fixed fixedAdversary) outcome {
 		cls("decided_any", len(out.decisions) > 0), cls("decided_all", allDecided(s, hon)),
 		cls("round_change", out.roundChanges > 0), cls("adv_accepted", out.advAccepted > 0),
 		cls("byzantine", len(byzs) > 0), cls("via_decided_msg", out.viaDecided), cls("decided_round>1", out.lateRound),
-		cls("reproposed_prepared", out.reproposed), cls("drop_or_dup", out.dropsDups > 0), cls("profile_orderly", orderly), cls("honest_msg_unjust(observation)", honestUnjust > 0), fmt.Sprintf("n=%d", n))
+		cls("reproposed_prepared", out.reproposed), cls("drop_or_dup", out.dropsDups > 0), cls("profile_orderly", orderly), cls("profile_staged", staged), cls("two_values_prepared_by_honest", out.twoPrepared), cls("stale_reproposal_attempted", out.staleAttempt), cls("honest_msg_unjust(observation)", honestUnjust > 0), fmt.Sprintf("n=%d", n))
 	vstat.Count("adv_sent", int64(out.advSent))
 	vstat.Count("adv_accepted_total", int64(out.advAccepted))
 	kind := ""
